@@ -20,7 +20,7 @@ func TestVerifC21Bench(t *testing.T) {
 	defer r.Finish()
 	c21.Run(r, "bench", []c21.Component{
 		{Name: "workload.physicalHashSlotForKey", New: func() c21.Fn { return physicalHashSlotForKey }},
-	}, nil, c21.Options{KeysAllCountsQuick: 1024, KeysAllCountsThorough: 8192})
+	}, nil, c21.Options{KeysAllCountsQuick: 512, KeysAllCountsThorough: 8192})
 	if r.Replay() != nil {
 		return
 	}
